@@ -118,6 +118,30 @@ theorem alErase_mem {k : α} {l : List (α × β)} {e : α × β} (h : e ∈ alE
       · simp [h]
       · exact List.mem_cons_of_mem _ (ih h)
 
+theorem alInsert_same {α β : Type} [DecidableEq α] {k : α} {v : β} {l : List (α × β)} (h : alLookup k l = some v) :
+    alInsert k v l = l := by
+  induction l with
+  | nil => simp at h
+  | cons e t ih =>
+    obtain ⟨a, b⟩ := e
+    by_cases h' : a = k
+    · subst h'
+      simp only [alLookup_cons, if_true, Option.some.injEq] at h
+      subst h
+      simp [alInsert]
+    · simp only [alLookup_cons, h', if_false] at h
+      simp only [alInsert, h', if_false, ih h]
+
+theorem alErase_absent {k : α} {l : List (α × β)} (h : alLookup k l = none) : alErase k l = l := by
+  induction l with
+  | nil => rfl
+  | cons e t ih =>
+    obtain ⟨a, b⟩ := e
+    by_cases h' : a = k
+    · simp [alLookup_cons, h'] at h
+    · simp only [alLookup_cons, h', if_false] at h
+      simp [alErase, h', ih h]
+
 /-- mapping the values of an association list (keys kept) commutes with lookup -/
 theorem alLookup_map_val {γ : Type} (g : α → β → γ) (k : α) (l : List (α × β)) :
     alLookup k (l.map fun e => (e.1, g e.1 e.2)) = (alLookup k l).map (g k) := by
